@@ -55,6 +55,13 @@ func checkC02(e *Env) {
 				emit(&Item{Op: plan.Op{Fn: "chkval", L: int64(c.Lang), S: hxs(s2)}, Exp: c02exp{kind: "ref-space-joined", c: c, sent: s2}})
 			}
 		})
+		// (a') a mnemonic that is HELD while another one is generated, then validated
+		rh := rng.New(e.Seed, "C02-hold")
+		for k := 0; k < e.pick(2000, 40000); k++ {
+			lang := k % ref.NLang
+			e1, e2 := rh.Bytes(ref.EntSizes[rh.Intn(5)]), rh.Bytes(ref.EntSizes[rh.Intn(5)])
+			emit(&Item{Op: plan.Op{Fn: "genhold", L: int64(lang), E: hx(e1), P: hx(e2)}, Exp: c02exp{kind: "held", c: EntCase{Ent: e1, Lang: lang, Class: "held"}}})
+		}
 		// (c) NewMnemonic output, default source and scripted sources
 		r := rng.New(e.Seed, "C02-new")
 		reps := e.pick(40, 1000)
@@ -91,7 +98,7 @@ func checkC02(e *Env) {
 			return
 		}
 		switch x.kind {
-		case "own", "new-default", "new-scripted":
+		case "own", "new-default", "new-scripted", "held":
 			if r.Err != nil {
 				e.Violate(&Violation{What: fmt.Sprintf("generator returned error %q for a valid request (%s)", errText(r.Err), x.kind), Ops: []plan.Op{it.Op}, Observed: r})
 				return
@@ -107,6 +114,11 @@ func checkC02(e *Env) {
 			}
 			toks := strings.Fields(out)
 			noteAccepted(lang, toks)
+			if x.kind == "held" && out != e.Model.Enc(x.c.Ent, lang) {
+				e.Violate(&Violation{What: fmt.Sprintf("a mnemonic returned by NewMnemonicByEntropy(%x, %s) no longer reads as the sentence of that entropy after another mnemonic was generated: %s", x.c.Ent, ref.Names[lang], preview(out)),
+					Ops: []plan.Op{it.Op}, Expected: map[string]string{"out_hex": hxs(e.Model.Enc(x.c.Ent, lang))}, Observed: r})
+				return
+			}
 			if x.kind == "own" {
 				if out != e.Model.Enc(x.c.Ent, lang) {
 					ownDiffersFromRef.Inc(ref.Names[lang]) // C01's business; recorded only
@@ -159,7 +171,7 @@ func checkC02(e *Env) {
 	e.WriteEvidence("exploration", map[string]any{
 		"evaluations":         stats.Ops,
 		"distinct_nontrivial": dist.Len(),
-		"rule":                "a case is one generate->check pair: (a) NewMnemonicByEntropy output fed straight into CheckMnemonic and IsMnemonicValid in the child, (b) the reference encoder's sentence for the same entropy (valid by construction, whatever the generator does), (c) NewMnemonic output from the default source and from scripted sources (zero-leading, all-zero, all-ones among them); every case is non-trivial (acceptance is required); distinct = distinct (kind, entropy or sentence, language)",
+		"rule":                "a case is one generate->check pair: (a) NewMnemonicByEntropy output fed straight into CheckMnemonic and IsMnemonicValid in the child, (b) the reference encoder's sentence for the same entropy (valid by construction, whatever the generator does), (a') a mnemonic held while another one is generated and validated afterwards, (c) NewMnemonic output from the default source and from scripted sources (zero-leading, all-zero, all-ones among them); every case is non-trivial (acceptance is required); distinct = distinct (kind, entropy or sentence, language)",
 		"samples":             smp.List(),
 		"pairs_by_kind":       kinds.Map(),
 		"leading_zero_byte_histogram_of_own_pairs": lz.Map(),
